@@ -73,6 +73,9 @@ def run_case(case, prefix=None):
                 v = {"on": True, "off": False, "p0off": 0x3E}[op[1]]
                 r.auto_ack = v
                 model.apply(["auto_ack", v])
+            elif k == "ack":
+                r.ack = bool(op[1])  # enabling ACK payloads switches auto-ack on pipe 0 back on (documented)
+                model.apply(["ack", bool(op[1])])
             elif k == "listen":
                 r.listen = bool(op[1])
                 model.apply(["listen", bool(op[1])])
@@ -172,7 +175,7 @@ def run_case(case, prefix=None):
 
 
 ALPHA = [["orx", 0, "A"], ["orx", 0, "A2"], ["orx", 0, "As"], ["orx", 1, "B"], ["crx", 0], ["crx", 1], ["otx", "A"],
-         ["otx", "T"], ["otx", "Tp"], ["aa", "on"], ["aa", "off"], ["aa", "p0off"], ["listen", True], ["listen", False]]
+         ["otx", "T"], ["otx", "Tp"], ["aa", "on"], ["aa", "off"], ["aa", "p0off"], ["ack", True], ["listen", True], ["listen", False]]
 ALPHA_LITE = [o for o in ALPHA if o[0] != "aa"]
 
 
